@@ -226,8 +226,19 @@ fn bulk_state(sc: &Scenario, bulk_factor: f64) -> Result<State<F>, String> {
         None => arr1(&[1.0]) * MOL,
         Some(x) => arr1(&[x, 1.0 - x]) * MOL,
     };
-    let rho = Density::from_reduced(rho_f * bulk_factor * sys.rhoc);
-    State::new_nvt(&sys.func, tf_bulk * sys.tc * KELVIN, moles.sum() / rho, &moles).map_err(|e| format!("bulk: {e}"))
+    let t = tf_bulk * sys.tc * KELVIN;
+    let rho = if *tf_bulk < 1.0 {
+        // sub-saturation bulk state: a fraction of the saturated vapor density
+        let vle = match sys.binary_x {
+            None => PhaseEquilibrium::pure(&sys.func, t, None, Default::default()),
+            Some(x) => PhaseEquilibrium::dew_point(&sys.func, t, &arr1(&[x, 1.0 - x]), None, None, Default::default()),
+        }
+        .map_err(|e| format!("vle for bulk: {e}"))?;
+        vle.vapor().density * (rho_f * bulk_factor).min(0.9)
+    } else {
+        Density::from_reduced(rho_f * bulk_factor * sys.rhoc)
+    };
+    State::new_nvt(&sys.func, t, moles.sum() / rho, &moles).map_err(|e| format!("bulk: {e}"))
 }
 
 fn build_with_bulk(sc: &Scenario, bulk_factor: f64) -> Result<Obj, String> {
@@ -463,6 +474,13 @@ fn execute(sc: &Scenario) -> RunOutcome {
                                     Obj::Interface(ifc) => interface_intact(ifc),
                                     Obj::Pore(_) => true,
                                 };
+                                // below the critical temperature a pore can hold several stationary
+                                // profiles (capillary condensation hysteresis): no path independence
+                                let unique = !matches!(&sc.kind, Kind::Pore { tf_bulk, .. } if *tf_bulk < 1.0);
+                                if !unique {
+                                    out.count("window.subcritical_pore_no_path_independence", 1);
+                                }
+                                let intact = intact && unique;
                                 // the reference belongs to the initial bulk state; a committed solve under a
                                 // particle-number specification legitimately moves the bulk state
                                 let same_bulk = obj
@@ -642,7 +660,9 @@ impl Engine for C18 {
                 // unique solution (with eps_ss = 100 two distinct stationary profiles exist and
                 // different solvers legitimately land on different branches)
                 eps_ss: *rng.pick(&[20.0, 40.0, 60.0]),
-                tf_bulk: rng.uniform(1.2, 1.5),
+                // one in three pores is in contact with a sub-saturation vapor (the property's
+                // quantifier); the others with a clearly supercritical fluid
+                tf_bulk: if rng.chance(0.33) { rng.uniform(0.7, 0.95) } else { rng.uniform(1.2, 1.5) },
                 rho_f: rng.uniform(0.05, 0.6),
             }
         } else {
